@@ -60,6 +60,7 @@ pub struct Sc {
     pub first_name: String,
 }
 
+#[derive(Clone, Copy)]
 pub struct C13;
 
 /// File names for the multi-file histories: same stem with other extensions, the scratch names a
